@@ -22,7 +22,7 @@ PROPS["C16"] = {
     "assumptions": ["math/big is correct", "verifref curve arithmetic is correct (validated against RFC 8032 constants and the affine addition law)",
                     "non-termination is detected by a budget of 30 seconds of CPU time (getrusage, not wall clock) on a microsecond-scale function; the case is then reported without shrinking"],
     "units": [
-        {"pkg": "internal/lattice", "configs": {"quick": ["default", "force32bit"], "thorough": ["default", "purego", "force32bit"]},
+        {"pkg": "internal/lattice", "configs": {"quick": ["default", "force32bit", "386"], "thorough": ["default", "purego", "force32bit", "386"]},
          "tests": {
              "TestC16ShortVector": T(300000, 10000000),
              "TestC16BigInt": T(40000, 1000000),
@@ -30,7 +30,7 @@ PROPS["C16"] = {
              "TestC16Int128FromScalar": T(10000, 200000),
              "TestC16Constants": LIST(),
          }},
-        {"pkg": "curve", "configs": {"quick": ["default", "purego", "force32bit"], "thorough": ["default", "noavx2", "purego", "force32bit"]},
+        {"pkg": "curve", "configs": {"quick": ["default", "purego", "force32bit"], "thorough": ["default", "noavx2", "purego", "force32bit", "386"]},
          "tests": {
              "TestC16Equation": T(6000, 60000, shards={"quick": 8, "thorough": 16}),
          }},
